@@ -1574,6 +1574,9 @@ impl<T: Transport, Env: UtpEnvironment> VirtualSocket<T, Env> {
             if ((self.user_rx.is_reader_dropped() && self.user_tx.is_writer_dropped())
                 || self.user_tx.is_writer_shutdown())
                 && !self.unsent_data_exists()
+                // The FIN's sequence number is final once it's out. A probe that fails gets re-cut into
+                // more segments than it took, and they'd collide with the FIN.
+                && !self.user_tx_segments.has_pending_mtu_probe()
                 && !self.state.is_local_fin_or_later()
             {
                 debug!("consumer closed and no data to send, shutting down");
